@@ -232,12 +232,64 @@ def gen_sched(rng, pre_choices=(0,)):
             nd["kind"] = "sched"
             nd["sched"] = rand_sched(rng, rng.choice(pre_choices))
             nd["c"] = 0
+            if rng.random() < 0.25:
+                nd["spf"] = rng.choice([1, 2])
     for n in range(N):
         for k in range(K):
             sc["svcS"][n][k] = samples(rng, 1, 5, 2)
             if sc["arrS"][n][k]:
                 sc["arrS"][n][k] = samples(rng, 1, 3, 2)
     sc["T"] = rng.randint(12, 40)
+    return sc
+
+
+def gen_schedblock(rng):
+    """schedules (any pre-emption option) feeding capacitated nodes: blocking meets shift changes.
+    Contains the triggers of findings F4 (pre-emptive shift end while blocked) and F7."""
+    sc = gen_sched(rng, pre_choices=(0, 0, 1, 2, 3))
+    if sc["N"] == 1:
+        sc = gen_sched(rng, pre_choices=(0, 0, 1, 2, 3))
+    N = sc["N"]
+    for n, nd in enumerate(sc["nodes"]):
+        nd["qcap"] = rng.choice([0, 1, 2, INF])
+        if nd.get("kind") == "sched" and rng.random() < 0.3:
+            nd["spf"] = rng.choice([1, 2])
+    if N >= 2:
+        for r in sc["route"]:
+            if r["kind"] == "tm":
+                r["P"][0][1] = max(r["P"][0][1], 2)
+                r["P"][0][0] = 0
+                if sum(r["P"][0]) > 4:
+                    r["P"][0] = [0, 4] + [0] * (N - 2)
+    return sc
+
+
+def gen_reroute(rng):
+    """'reroute' pre-emption (priority pre-emption or pre-emptive schedule): documented capacity exception"""
+    K = 2
+    sc = gen_tandem(rng, N=2, K=K)
+    sc["prio"] = [0, 1]
+    sc["syscap"] = INF
+    for nd in sc["nodes"]:
+        nd["qcap"] = INF
+        if nd["c"] >= INF or nd["c"] == 0:
+            nd["c"] = 1
+    if rng.random() < 0.6:
+        sc["nodes"][0]["pp"] = 4
+    else:
+        sc["nodes"][0]["kind"] = "sched"
+        sc["nodes"][0]["c"] = 0
+        sc["nodes"][0]["sched"] = rand_sched(rng, 4)
+    for n in range(2):
+        for k in range(K):
+            sc["svcS"][n][k] = samples(rng, 1, 5, 2)
+    for k in range(K):
+        sc["arrS"][0][k] = samples(rng, 1, 4, 2)
+    if rng.random() < 0.4:
+        sc["tracker"] = rng.choice(["system", "node", "naive", "nodeclass", "matrix"])
+    if rng.random() < 0.3:
+        routers = [{"t": "jsq", "dests": [1, 2], "tie": "order"}, {"t": "leave"}]
+        sc["route"] = [{"kind": "nr", "routers": routers} for _ in range(K)]
     return sc
 
 
@@ -375,6 +427,8 @@ FAMILIES = {
     "dead": gen_dead,
     "clsren": gen_clsren,
     "sched": gen_sched,
+    "schedblock": gen_schedblock,
+    "reroute": gen_reroute,
     "schedpre": lambda rng: gen_sched(rng, pre_choices=(1, 2, 3)),
     "slot": gen_slot,
     "ccw": gen_ccw,
